@@ -29,9 +29,13 @@ OwnerTd(envs, j, n) == CHOOSE i \in 1..j : n \in DOMAIN envs[i].td /\ <<"td", n>
 Key3(j, i, kind, name) == ToString(j) \o ":" \o ToString(i) \o ":" \o kind \o ":" \o name
 Key1(j, name) == ToString(j) \o ":" \o name
 
+\* layout facts only (names of aggregates are C11's subject): field names, offsets, bit positions, sizes
 SUMatches(o, i) ==
   /\ Has(o, "name") /\ o.kind = i.kind /\ o.complete = i.complete
-  /\ o.fields = i.fields /\ o.size = i.size /\ o.align = i.align
+  /\ Len(o.fields) = Len(i.fields)
+  /\ \A f \in DOMAIN i.fields : /\ o.fields[f][1] = i.fields[f][1] /\ o.fields[f][3] = i.fields[f][3]
+                                 /\ o.fields[f][4] = i.fields[f][4] /\ o.fields[f][5] = i.fields[f][5]
+  /\ o.size = i.size /\ o.align = i.align
 
 Verdict(r, mode) ==
   LET run == RunChain(r.beh, 1, <<>>, EnvInit)
@@ -72,7 +76,11 @@ Verdict(r, mode) ==
       \* ---- API mode: lib[j] reaches functions, variables, constants of lib[i]
       own(i) == [fn |-> DOMAIN envs[i].fn, gv |-> DOMAIN envs[i].gv,
                  k |-> {c \in DOMAIN envs[i].kc : <<"k", c>> \notin envs[i].inc}]
-      reachKeys == UNION {UNION {{Key3(j, i, "fn", f) : f \in own(i).fn} \cup {Key3(j, i, "gv", g) : g \in own(i).gv}
+      \* lookup order (lib_build_and_cache_attr): own globals first, then the included lib, recursively:
+      \* a name defined again in a later module of the chain hides the earlier one
+      hidden(j, i, x) == \E m \in (i + 1)..j : x \in (DOMAIN envs[m].fn) \cup (DOMAIN envs[m].gv)
+      reachKeys == UNION {UNION {{Key3(j, i, "fn", f) : f \in {f \in own(i).fn : ~hidden(j, i, f)}}
+                                 \cup {Key3(j, i, "gv", g) : g \in {g \in own(i).gv : ~hidden(j, i, g)}}
                                  \cup {Key3(j, i, "k", c) : c \in own(i).k} : i \in 1..(j - 1)} : j \in 1..n}
       vReach == IF mode = "api"
                 THEN {<<"reach", key, "">> : key \in {key \in reachKeys : ~(Has(o.reach, key) /\ o.reach[key] = "ok")}}
@@ -87,7 +95,9 @@ Verdict(r, mode) ==
                          ok(enKey(x)) # (ModelId(Ms, x[1], <<"enum", x[2]>>) = IdealId(envs, x[1], <<"enum", x[2]>>))}}
                ELSE {}
   IN IF run.bad # 0 THEN << {<<"guard", ToString(run.bad), "">>}, {} >>
-     ELSE IF o.err # "" THEN << {<<"build", o.err, "">>}, {} >>
+     ELSE IF o.err # ""
+          THEN << {<<"build", o.err, IF gen /\ \E j \in 1..n : TwoFileTypedefs(envs[j]) /\ ~Ms[j].ok
+                                     THEN "emit:FILE-typedef'ed-twice" ELSE "">>}, {} >>
      ELSE << vSame \cup vK \cup vLay \cup vReach, dSame >>
 
 TInit == k \in 1..Len(Traces) /\ done = FALSE /\ cenv = EnvInit /\ hist = <<>> /\ variant = "faithful" /\ chain = <<>>
